@@ -224,4 +224,46 @@ def procExact (tck : Nat) (u1 s1 u2 s2 : Nat) (w1 w2 : Rat) : Rat :=
   if w2 - w1 = 0 then 0
   else 100 * ((((u2 : Rat) - u1) + ((s2 : Rat) - s1)) / (tck : Rat)) / (w2 - w1)
 
+/-- the last (wall clock, utime, stime) a call samples, if it gets that far -/
+def ptaken (p : PCall) : Option (Rat × Nat × Nat) :=
+  if p.negative then none
+  else if p.blocking then
+    match p.timer, p.times with
+    | _ :: t2 :: _, _ :: (u2, s2) :: _ => some (t2, u2, s2)
+    | _, _ => none
+  else
+    match p.timer, p.times with
+    | t :: _, (u, s) :: _ => some (t, u, s)
+    | _, _ => none
+
+def pprevStep (obj : Nat) (p : Option (Rat × Nat × Nat)) (c : PCall) : Option (Rat × Nat × Nat) :=
+  if c.obj = obj then
+    match ptaken c with
+    | some v => some v
+    | none => p
+  else p
+
+/-- the sample `Process` object `obj` took at its previous call -/
+def pprev (obj : Nat) (h : List PCall) : Option (Rat × Nat × Nat) := h.foldl (pprevStep obj) none
+
+/-- what `Process.cpu_percent` returns after history `h` (exact and rounded) -/
+def pexpectedExact (tck : Nat) (h : List PCall) (p : PCall) : POut :=
+  if p.negative then .exc .valueError
+  else if p.blocking then
+    match p.timer, p.times with
+    | w1 :: w2 :: _, (u1, s1) :: (u2, s2) :: _ => .val (procExact tck u1 s1 u2 s2 w1 w2)
+    | _, _ => .starved
+  else
+    match p.timer, p.times with
+    | w2 :: _, (u2, s2) :: _ =>
+      match pprev p.obj h with
+      | none => .val 0
+      | some (w1, u1, s1) => .val (procExact tck u1 s1 u2 s2 w1 w2)
+    | _, _ => .starved
+
+def pexpected (tck : Nat) (h : List PCall) (p : PCall) : POut :=
+  match pexpectedExact tck h p with
+  | .val v => .val (round1 v)
+  | o => o
+
 end Psutil.C07.Spec
